@@ -95,7 +95,7 @@ def run_case(case):
                     failures.append(fail(sub, "not_a_list_of_terminals", repr(w)))
                     break
                 got.append(tuple(x.value for x in w))
-                if len(got) > 5000:
+                if len(got) > 5000 + 2 * len(exp):
                     failures.append(fail(sub, "too_many", n))
                     break
             gs = set(got)
